@@ -120,7 +120,7 @@ func runC07(c *Check) error {
 	// printing half: every tree returned with errors
 	K0, K1, K2, vers := pipeTier(c)
 	c.ExploreNeeds(shortShapes("H_C07_Print", K0, K1, K2, vers, 900_000), nil)
-	every := tierEvery(c, 30, 3)
+	every := tierEvery(c, 30, 10)
 	for _, ver := range []string{"7.4", "5.6"} {
 		whole, err := c.wholeJobs("H_C07_Print", ver, 3_000_000, false)
 		if err != nil {
